@@ -75,3 +75,23 @@ CHECKS["C02"] = {
 }
 CHECKS["C03"] = dict(CHECKS["C02"])
 CHECKS["C04"] = dict(CHECKS["C02"])
+
+
+# ---------------------------------------------------------------------------------------------------------------
+CHECKS["C16"] = {
+    "pkg": "./core",
+    "parallel": 4,
+    "quick": [{"harness": "VerifC16Deadliner", "params": {"k": [2, 3]}, "prune": 1000, "timeout_ms": 120000}],
+    "thorough": [{"harness": "VerifC16Deadliner", "params": {"k": [2, 3, 4]}, "prune": 1000, "timeout_ms": 600000, "case_timeout_s": 14000}],
+    "bounds": {
+        "quick": "k=2 registrations over 3 duty slots (repeats allowed), each of an expiring or an exempt type, deadlines and clock advances symbolic (8-bit offsets), every order in which ready events (registration, timer) are taken; consumer reads whenever the deadliner goroutine is idle",
+        "thorough": "k<=4 registrations",
+    },
+    "outside": "more than 10 duties expiring before the consumer is scheduled (output buffer overflow, candidate C16-a in DESIGN.md: needs k>10); Add()'s own select on quit; real timers (a harness clock implements clockwork.Clock; time.Time arithmetic is modelled as int64 nanoseconds); re-registration of a duty at the very instant of its deadline after it was scheduled before",
+    "assumptions": [
+        "time.Time modelled as int64 nanoseconds (Sub/Before/After/Add intrinsics); far-future sentinel date = 2^62",
+        "harness clock: a timer fires when the clock reading reaches creation time + duration; only the environment advances the clock",
+        "the deadliner goroutine runs until it blocks before the environment acts again (actor-loop reduction, DESIGN.md 2.4)",
+        "unbuffered channels are modelled as 1-slot buffers (the sender does not wait for the receiver)",
+    ],
+}
